@@ -141,6 +141,22 @@ def generate(rng, n, tier="quick"):
     case = session({"escape": "none"}, [("main", src2)], {"api": "render", "name": "main"}, data)
     case["id"] = "%s-bptype2" % ID
     out.append((case, {"mode": "bptype", "oracle": ["must", "[Y0zY1|[p]s|Y0Y1]"]}))
+    # directed: a numeric segment far beyond the end of an array designates nothing – at every magnitude a machine index can have
+    # (the ends of 16-, 32- and 64-bit ranges), in every spelling of a path step; `lookup` agrees with the inline path
+    data = {"xs": ["a", "b"], "o": {"xs": ["c"]}}
+    for n in [2, 255, 256, 65535, 65536, 2**31 - 1, 2**31, 2**32 - 1, 2**32, 2**32 + 1, 2**53, 2**63 - 1, 2**63, 2**64 - 1]:
+        src = ("[{{xs.%d}}|{{xs.[%d]}}|{{this.xs.%d}}|{{./xs/%d}}|{{#with o}}{{../xs.%d}}|{{xs.%d}}{{/with}}|{{@root.xs.%d}}|"
+               "{{#each xs}}{{../xs.%d}}{{/each}}|{{#with xs as |y|}}{{y.%d}}{{/with}}|{{lookup xs %d}}|{{#if xs.%d}}T{{else}}F{{/if}}]") % ((n,) * 11)
+        case = session({"escape": "none"}, [("main", src)], {"api": "render", "name": "main"}, data)
+        case["id"] = "%s-bigidx%02d" % (ID, d)
+        d += 1
+        out.append((case, {"mode": "bigidx", "oracle": ["must", "[||||||||||F]"]}))
+    for n in [2**64, 2**64 + 1, 10**30]:
+        src = "[{{xs.%d}}]" % n
+        case = session({"escape": "none"}, [("main", src)], {"api": "render", "name": "main"}, data)
+        case["id"] = "%s-hugeidx%02d" % (ID, d)
+        d += 1
+        out.append((case, {"mode": "bigidx", "oracle": ["any", "an index no machine word holds: the crate's InvalidJsonIndex is compared with the model"]}))
     return out
 
 
